@@ -59,3 +59,21 @@ def interleave_by_size(cfgs, sizes_per_class=3):
             seq.append(dict(seq[0]))
             out.append(seq)
     return out
+
+
+def across_classes(cfgs, max_l=3, per_class=2):
+    """Sequences that visit every class having a given size tuple (a few configurations each), forwards
+    and then backwards, so that state remembered per size / per coordinate cannot leak between classes."""
+    by_size = {}
+    for c in cfgs:
+        if max(c['size']) <= max_l:
+            by_size.setdefault(tuple(c['size']), {}).setdefault(c['cls'], []).append(c)
+    out = []
+    for size, per in sorted(by_size.items()):
+        if len(per) < 2:
+            continue
+        seq = []
+        for cls in sorted(per):
+            seq += per[cls][:per_class]
+        out.append(seq + seq[::-1])
+    return out
